@@ -137,4 +137,82 @@ theorem cont_not_blank (l : Str) (h : isCont l = true) : isBlank l = false := by
     have := List.all_eq_true.mp hb c hm
     rw [hc] at this; cases this
 
+/-! ### one step of the loop -/
+
+theorem go_cont_step (s : List Fld × Fld) (l : NL) (rest : List NL) (hnb : isBlank l.val = false)
+    (hc : isCont l.val = true) : go (some s) (l :: rest) = go (some (addLine s ⟨l.num, rstrip l.val⟩)) rest := by
+  conv => lhs; unfold go
+  simp only [hnb, Bool.false_eq_true, if_false, hc, if_true]
+
+theorem go_decl_step_open (s : List Fld × Fld) (l : NL) (rest : List NL) (hnb : isBlank l.val = false)
+    (hc : isCont l.val = false) (hd : isDecl l.val = true) :
+    go (some s) (l :: rest) = go (some (s.1 ++ [s.2], fromLine l)) rest := by
+  conv => lhs; unfold go
+  simp only [hnb, Bool.false_eq_true, if_false, hc, hd, if_true]
+
+theorem go_decl_step_none (l : NL) (rest : List NL) (hnb : isBlank l.val = false) (hd : isDecl l.val = true) :
+    go none (l :: rest) = go (some ([], fromLine l)) rest := by
+  conv => lhs; unfold go
+  simp only [hnb, Bool.false_eq_true, if_false, hd, if_true]
+
+theorem go_blank_none (l : NL) (rest : List NL) (hb : isBlank l.val = true) : go none (l :: rest) = go none rest := by
+  conv => lhs; unfold go
+  simp only [hb, if_true, flush, List.nil_append]
+
+/-- a blank line closes the paragraph when the next line is blank or a declaration, or there is none -/
+theorem go_blank_break (s : List Fld × Fld) (l : NL) (rest : List NL) (hb : isBlank l.val = true)
+    (hn : ∀ n ∈ rest.head?, isDecl n.val = true ∨ isBlank n.val = true) :
+    go (some s) (l :: rest) = flush (some s) ++ go none rest := by
+  conv => lhs; unfold go
+  simp only [hb, if_true]
+  cases rest with
+  | nil => rfl
+  | cons n tl =>
+    simp only
+    have := hn n (by simp)
+    rcases this with h | h <;> simp [h]
+
+/-! ### trailing-blank trimming -/
+
+theorem rstripLines_prefix (ls : List NL) : ∃ t, ls = rstripLines ls ++ t := by
+  induction ls with
+  | nil => exact ⟨[], rfl⟩
+  | cons l ls ih =>
+    obtain ⟨t, ht⟩ := ih
+    simp only [rstripLines]
+    cases hr : rstripLines ls with
+    | nil =>
+      by_cases hb : isBlank l.val = true
+      · exact ⟨l :: ls, by simp [hb]⟩
+      · refine ⟨ls, by simp [hb]⟩
+    | cons r rs =>
+      rw [hr] at ht
+      exact ⟨t, by simp; exact ht⟩
+
+theorem rstripLines_mem_or_blank (ls : List NL) : ∀ l ∈ ls, l ∈ rstripLines ls ∨ isBlank l.val = true := by
+  induction ls with
+  | nil => intro l hl; cases hl
+  | cons a as ih =>
+    intro l hl
+    simp only [rstripLines]
+    cases hr : rstripLines as with
+    | nil =>
+      rcases List.mem_cons.mp hl with rfl | hl
+      · by_cases hb : isBlank l.val = true
+        · exact Or.inr hb
+        · simp [hb]
+      · have := ih l hl
+        rw [hr] at this
+        rcases this with h | h
+        · cases h
+        · exact Or.inr h
+    | cons r rs =>
+      rcases List.mem_cons.mp hl with rfl | hl
+      · simp
+      · have := ih l hl
+        rw [hr] at this
+        rcases this with h | h
+        · exact Or.inl (List.mem_cons_of_mem _ h)
+        · exact Or.inr h
+
 end Proofs.Deb822
